@@ -63,6 +63,89 @@ def jw_sign_rule(chk, src):
     chk.ob("jw-sign-parity", "moved sigma_z count is taken modulo 2", "%2" in zt, fi.where, zt, "... % 2", line=zdef[-1].lineno)
 
 
+
+def jw_simplify_rule(chk, src):
+    """exhaustive check of the normal-ordering step of simplify_op on one site: for every word over {Z, +, -} up to length 5 the simplified word times the
+    counted sign is the same 2x2 matrix, and the quantum numbers attached to the kept symbols are the charge differences of their matrix elements"""
+    import itertools
+    import sympy as sp
+    from ..syminterp import SymInterp, Sym
+    from .C16 import Mat2
+    from ..alg import Opaque
+    HQC = "renormalizer/model/h_qc.py"
+    fi = src.func(HQC, "simplify_op")
+    hs = src.func("renormalizer/model/basis.py", "BasisHalfSpin.op_mat")
+    m2 = Mat2(hs, split=True)
+    try:
+        mats = {"Z": m2.value("Z"), "+": m2.value("+"), "-": m2.value("-")}
+    except Opaque as e:
+        raise AnalysisError(f"BasisHalfSpin.op_mat: matrices of Z, +, - not foldable: {e}")
+    # the site charges used by qc_model (literal arrays under `iorb % 2 == 0`)
+    qm = src.func(HQC, "qc_model")
+    lits = [n for n in ast.walk(qm.node) if isinstance(n, ast.Assign) and unparse(n.targets[0]) == "sigmaqn" and "np.array([[" in unparse(n.value)]
+    if len(lits) != 2:
+        raise AnalysisError(f"{qm.where}: the two literal sigmaqn arrays were not found")
+    sig = [ast.literal_eval(unparse(n.value.args[0])) for n in lits]    # [even orbital, odd orbital]
+    made = []
+
+    class OpTag(Sym):
+        def __call__(self, symbol, dof, factor=1, qn=None):
+            made.append((symbol, dof, factor, qn))
+            return made[-1]
+    tag = OpTag("Op")
+    tag.__dict__["product"] = lambda ops: list(ops)
+    it = SymInterp(src, None, {"Op": tag, "dict": dict})
+    bad_sign, bad_qn, n = [], [], 0
+    for L in range(1, 6):
+        for w in itertools.product("Z+-", repeat=L):
+            for dof in (0, 1):
+                made.clear()
+                elem = Sym("elem", split_symbol=list(w), dofs=[dof])
+                old = Sym("old", split_elementary=lambda d2s: ([elem], 1))
+                out = it.call_function(fi, [old, 2, True])
+                n += 1
+                lhs = sp.eye(2)
+                for c_ in w:
+                    lhs = lhs * mats[c_]
+                rhs = sp.eye(2)
+                fac = 1
+                for (symbol, d_, factor, qn) in out:
+                    fac = fac * factor
+                    for c_ in symbol.split(" "):
+                        rhs = rhs * mats[c_]
+                    if d_ != dof:
+                        bad_sign.append(f"{' '.join(w)} on orbital {dof}: simplified operator placed on orbital {d_}")
+                    # charges: one entry per kept symbol
+                    syms = symbol.split(" ")
+                    if qn is None or len(qn) != len(syms):
+                        bad_qn.append(f"{' '.join(w)}: {len(qn or [])} quantum numbers for {len(syms)} symbols")
+                    else:
+                        for c_, q_ in zip(syms, qn):
+                            M = mats[c_]
+                            for r_ in range(2):
+                                for k_ in range(2):
+                                    if M[r_, k_] != 0:
+                                        diff = [sig[dof % 2][r_][x] - sig[dof % 2][k_][x] for x in range(2)]
+                                        if list(q_) != diff and len(bad_qn) < 5:
+                                            bad_qn.append(f"symbol {c_} on an {'odd' if dof % 2 else 'even'} orbital: declared charge {list(q_)}, its matrix element changes the site charge by {diff}")
+                if sp.simplify(lhs - fac * rhs) != sp.zeros(2, 2) and len(bad_sign) < 5:
+                    bad_sign.append(f"{' '.join(w)} -> {fac} * [{', '.join(o[0] for o in out) or 'identity'}]: matrices differ")
+    chk.ob("jw-simplify", f"simplify_op: sign and word ({n} words up to length 5, even and odd orbital)", not bad_sign, fi.where, bad_sign[:3] or "all equal", "product(word) == sign * product(simplified word)", line=fi.node.lineno,
+           detail="moving every sigma_z to the front picks up (-1) for each sigma_+/sigma_- it passes and pairs of sigma_z cancel: " + (bad_sign[0] if bad_sign else ""))
+    chk.ob("jw-simplify", "simplify_op: quantum numbers of the kept symbols", not bad_qn, fi.where, bad_qn[:3] or "consistent", "charge of a symbol = charge difference of its non-zero matrix elements", line=fi.node.lineno,
+           detail="the operator's quantum numbers must describe what its matrix does to the site charges declared in qc_model (alpha / beta electron counts): " + (bad_qn[0] if bad_qn else ""))
+    # ladder operators: a_j = Z_0 ... Z_{j-1} sigma_+[j], a_j^dagger the same string with sigma_-
+    gl = src.func(HQC, "generate_ladder_operator")
+    tag2 = OpTag("Op")
+    tag2.__dict__["product"] = lambda ops: [(o[0], o[1]) for o in ops]
+    it2 = SymInterp(src, None, {"Op": tag2})
+    a_ops, ad_ops = it2.call_function(gl, [4])
+    want_a = [[("Z", l) for l in range(j)] + [("+", j)] for j in range(4)]
+    want_d = [[("Z", l) for l in range(j)] + [("-", j)] for j in range(4)]
+    chk.ob("jw-simplify", "generate_ladder_operator: sigma_z string on every lower orbital", a_ops == want_a and ad_ops == want_d, gl.where, {"a": a_ops[2:3], "a^dagger": ad_ops[2:3]},
+           {"a": want_a[2:3], "a^dagger": want_d[2:3]}, line=gl.node.lineno, detail="Jordan-Wigner: a_j = prod_{l<j} sigma_z[l] * sigma_+[j]; a missing or extra sigma_z changes the fermionic signs of hopping terms")
+
+
 def run(chk):
     src = chk.src
     chk.explanation = (
@@ -81,6 +164,8 @@ def run(chk):
     chk.rule("qc-term-coverage", "qc_model: both integral index sets feed the term list in both layouts", 4)
     chk.rule("jw-sign-parity", "Jordan-Wigner sign of an operator-side site swap over its whole (finite) input space", 2)
     jw_sign_rule(chk, src)
+    chk.rule("jw-simplify", "Jordan-Wigner strings and their single-site normal ordering, exhaustively over short words", 3)
+    jw_simplify_rule(chk, src)
     chk.table("update_mps_callers", {f"{k[0]}::{k[1]}": v for k, v in UPDATE_CALLERS.items()})
     # ---- ofs-pair
     seen = 0
